@@ -239,7 +239,7 @@ def rule_acceptance(chk, ci, concrete):
             chk.violated('acceptance-predicate', cls.name + ':query', node=cls, file=rel, func=cls.name, detail='no neighbour query implementation')
             continue
         r2, c2, fn = got
-        bodies.append((cls.name, r2, c2, fn))
+        bodies.append((cls.name, r2, c2, M.continues_as_nesting(fn)))          # `if not accepted: continue; nbrs.append(j)` is `if accepted: nbrs.append(j)`
     # brute force reference too
     t = M.cy(NB)
     base = M.find_class(t, 'NNPSBase')
@@ -954,7 +954,8 @@ def rule_stencil(chk, ci, concrete):
             got = ci.lookup_method(rel, cls, mn)
             if got is None or got[1].name in ('NNPS', 'NNPSBase'):
                 continue
-            hw = loop_halfwidths(got[2])
+            # a local that merely names the attribute (`n_sub = self.H`, assigned once) is the attribute
+            hw = loop_halfwidths(M.self_aliases_inlined_deep(got[2]))
             if len(hw) >= 3:
                 enum.append((got, hw))
         if not enum:
@@ -970,7 +971,9 @@ def rule_stencil(chk, ci, concrete):
             need = 'self.H' if edge_H else '1'
             have = list(ms)[0] if len(ms) == 1 else None
             # more cells than necessary is a superset (fine); fewer is a miss
-            ok = have is not None and (have == need or need == '1' or (edge_H and have in ('self.H', 'H')))
+            # (a half-width handed in as a parameter is judged where it is computed - rule_level_stencil / rule_subcell_radius; a local that is assigned again inside the
+            # loops is not the sub-division factor any more)
+            ok = have is not None and (have == need or need == '1' or (edge_H and (have == 'self.H' or have in M.arg_names(f))))
             inst = '%s:%s.%s' % (cls.name, c2.name, f.name)
             chk.decide(ok, 'stencil-covers-cutoff', inst, node=hw[0][1], file=r2, func='%s.%s' % (c2.name, f.name),
                        detail_bad='cells are %s wide but the stencil spans only +/-%s cells in each direction: it covers +/-%s*edge < radius_scale*max(h) '
@@ -1248,6 +1251,34 @@ def rule_bounds(chk):
             chk.decide(bool(wid), 'bounds-contain-particles', '%s:padded' % v, node=wid[0] if wid else fn, file=rel, func=who,
                        detail_bad='%s is not moved outwards after the extent has been gathered: particles exactly on that face of the bounding box fall outside the last / first cell '
                                   '(index = number of cells) for round geometries' % v, detail_ok='%s widened by %s' % (v, compact(wid[0].value) if wid else ''))
+
+
+def rule_distinct_containers(chk):
+    """the per-array containers of the search structures are one object per particle array: a list built by replication (`[UIntArray()]*narrays`) holds the same object narrays
+    times, so what is binned for one array shows up in the lists of all the others (expected count of such constructions: zero; the rule is exercised by a kept seed)"""
+    import glob as _glob
+    n_lists, bad = 0, []
+    for p_ in sorted(_glob.glob(os.path.join(REPO, 'pysph/base/*nnps*.pyx'))):
+        if 'gpu' in os.path.basename(p_):
+            continue
+        rel = os.path.relpath(p_, REPO)
+        t = M.cy(rel)
+        M.set_parents(t)
+        for x in ast.walk(t):
+            if isinstance(x, ast.ListComp) and isinstance(x.elt, ast.Call):
+                n_lists += 1
+            if isinstance(x, ast.BinOp) and isinstance(x.op, ast.Mult):
+                for lst, cnt in ((x.left, x.right), (x.right, x.left)):
+                    if isinstance(lst, ast.List) and any(isinstance(e_, (ast.Call, ast.List, ast.Dict, ast.Set, ast.ListComp)) for e_ in lst.elts):
+                        fn = M.enclosing_func(x)
+                        bad.append((rel, x, M.qualname(fn) if fn is not None else '<module>'))
+    chk.floor('per-array container lists in the NNPS sources', n_lists, 3)
+    if bad:
+        for rel, x, who in bad:
+            chk.violated('per-array-containers-distinct', '%s:%s' % (who, compact(x)[:40]), node=x, file=rel, func=who,
+                         detail='`%s` replicates one object: every particle array shares the same container, so indices binned for one array are returned for the others' % U(x)[:70])
+    else:
+        chk.holds('per-array-containers-distinct', 'no-replicated-containers', file=NB, func='<module>', detail='%d per-array lists are built element by element' % n_lists)
 
 
 def rule_bins_all(chk):
@@ -2311,6 +2342,7 @@ def main(chk):
     rule_subcell_radius(chk)
     rule_bounds(chk)
     rule_bins_all(chk)
+    rule_distinct_containers(chk)
     rule_valid_cell(chk)
     rule_level_cell_size(chk)
     rule_narrowing(chk)
